@@ -216,7 +216,8 @@ def f64Tok (s : String) : F64 := F64.ofBits (hexNat s)
 /-- run the model on a progressive case -/
 def runPWith (c : PCase) (cfg : Config) (ops : List (List String)) : PObs := Id.run do
   if c.novideo then return { replies := [(PR.other "builderr:MissingVideoConfig:-", 0)], file := [] }
-  let mut m := build cfg
+  let some m0 := buildChecked cfg | return { replies := [(PR.other "builderr:Io:-", 0)], file := [] }
+  let mut m := m0
   let mut sink : Sink PSinkState := { st := { script := c.policy.script } }
   let mut out : Array (PR × Nat) := #[]
   let respond := policyRespond c.policy
